@@ -432,6 +432,23 @@ def scale_specs(tier):
     return out
 
 
+def scale_documents():
+    """YAML-expressible large documents for the loader checks: two-digit host ids, ten subnets, many sensitive hosts"""
+    out = []
+    for sp in scale_specs("quick"):
+        out.append(sp if yaml_expressible(sp) else _strip_dict_only(sp))
+    many = build({"shape": "12-3", "topo": "chain", "fw": "asym", "hostfw": "deny_pivot", "sw": "2os2s2p",
+                  "exploits": "e0e2", "privescs": "two", "prob": "half", "cost": "unit", "values": "zero",
+                  "discovery": "zero", "sensitive": "last", "step_limit": 50, "bounds": "default",
+                  "host_order": "sorted", "names": "plain"}, name="scale-many-sensitive")
+    for k, a in enumerate(all_addresses(many)):
+        if k % 5 != 4:                      # 12 of the 15 hosts are sensitive, incl. two-digit host ids
+            many["sensitive_hosts"][a] = 10 + k
+            many["hosts"][a].pop("value", None)
+    out.append(many)
+    return out
+
+
 def fw_exhaustive_specs():
     """thorough: all 4^4 subsets of {s0,s1} for the four directed rules of the 2-subnet chain"""
     base = {"shape": "1-1", "topo": "chain", "fw": "allow_all", "hostfw": "none", "sw": "1os2s1p",
@@ -531,6 +548,9 @@ def thorough_family():
         entries.append((dict(sp, name=n), "shipped"))
     for sp in scale_specs("thorough")[5:]:
         entries += _entries_for(sp)
+    entries.append(({"name": "gen180", "genparams": {"num_hosts": 180, "num_services": 3, "seed": 4,
+                                                      "exploit_probs": 0.5, "host_discovery_value": 5},
+                     "_path_only": True, "_path_cap": 8}, "generated"))
     for g, seed in (("huge-gen", 0), ("pocp-1-gen", 0), ("medium-gen", 3), ("large-gen", 4)):
         entries.append(({"name": f"{g}-path-s{seed}", "gen": [g, seed], "_path_only": True}, "generated"))
     # 16-host shipped scenarios: breadth-first exploration capped at 1200 states (reported as capped, never
